@@ -35,10 +35,15 @@ def code_tie(hints: list, reg: Registry, preds: dict, conf_names=('default', 'no
     todo = []
     skipped = {}
     for h in hints:
+        from .model import STANDIN
+        n0 = STANDIN[0]
         try:
             hm = hint_model(h, reg)
         except (NotImplementedError, KeyError) as e:
             skipped['unmodelled-hint'] = skipped.get('unmodelled-hint', 0) + 1
+            continue
+        if STANDIN[0] != n0:      # user generic / protocol: modelled by meaning only, behaviour tie only
+            skipped['meaning-only (user generic / protocol)'] = skipped.get('meaning-only (user generic / protocol)', 0) + 1
             continue
         if hm == ['any']:
             continue
